@@ -2,11 +2,15 @@ package c03
 
 import (
 	"bytes"
+	"crypto/sha1"
 	"encoding/base64"
 	"fmt"
+	"net"
 	"net/http"
+	"net/http/fcgi"
 	"net/http/httptest"
 	"net/url"
+	"os"
 	"path"
 	"path/filepath"
 	"regexp"
@@ -25,13 +29,15 @@ import (
 
 func TestMain(m *testing.M) {
 	vt.Property = "C03"
-	vt.Main(m)
+	vt.Main(m, "C03_DEBUG")
 }
 
 var (
 	treeOnce sync.Once
 	tree     *fixture.Tree
 	backend  *httptest.Server
+	fcgiAddr string
+	htFile   string
 )
 
 func setupOnce() *fixture.Tree {
@@ -45,6 +51,24 @@ func setupOnce() *fixture.Tree {
 			w.Header().Set("Content-Type", "text/plain")
 			fmt.Fprintf(w, "BACKEND-SAW[%s] some backend content\n", r.URL.Path)
 		}))
+		// a FastCGI responder (Go's own implementation) that reports the path casket's fastcgi rule matched
+		l, err := net.Listen("tcp", "127.0.0.1:0")
+		if err != nil {
+			panic(err)
+		}
+		fcgiAddr = l.Addr().String()
+		go fcgi.Serve(l, http.HandlerFunc(func(w http.ResponseWriter, r *http.Request) {
+			w.Header().Set("Content-Type", "text/plain")
+			env := fcgi.ProcessEnv(r)
+			fmt.Fprintf(w, "BACKEND-SAW[%s] some fastcgi content\n", strings.TrimPrefix(env["PATH_TRANSLATED"], env["DOCUMENT_ROOT"]))
+		}))
+		// htpasswd file: the rule users plus a user no rule names
+		sha := func(p string) string {
+			h := sha1.Sum([]byte(p))
+			return "{SHA}" + base64.StdEncoding.EncodeToString(h[:])
+		}
+		htFile = filepath.Join(filepath.Dir(tree.Root), "c03.htpasswd") // casket resolves htpasswd= relative to the site root
+		os.WriteFile(htFile, []byte("carol:"+sha("carol-pass")+"\nalice:"+sha("wonder-land")+"\nbob:"+sha("builder")+"\n"), 0o644)
 	})
 	return tree
 }
@@ -57,6 +81,7 @@ type AuthRule struct {
 	Pass      string   `json:"pass"`
 	Exclude   []string `json:"exclude,omitempty"`
 	Realm     bool     `json:"realm,omitempty"`
+	Htpasswd  bool     `json:"htpasswd,omitempty"` // the password is looked up in an htpasswd file
 }
 
 type Site struct {
@@ -94,6 +119,10 @@ var otherText = map[string]string{
 	"proxy-secret":   "proxy /secret/api {BACKEND}",
 	"proxy-internal": "proxy /internal/api {BACKEND}",
 	"proxy-pub":      "proxy /papi {BACKEND}",
+	"fcgi-secret":    "fastcgi /secret/fcgi {FCGI}",
+	"fcgi-internal":  "fastcgi /internal/fcgi {FCGI}",
+	"fcgi-pub":       "fastcgi /pfcgi {FCGI}",
+	"rewrite-fcgi":   "rewrite /falias /secret/fcgi/x",
 	"header":         "header / X-Frame-Options DENY",
 	"mime":           "mime .txt text/plain",
 }
@@ -113,11 +142,15 @@ func siteBlock(host string, s Site, protect bool) string {
 	fmt.Fprintf(&sb, "http://%s:0 {\n\troot %s\n", host, t.Root)
 	if protect {
 		for _, a := range s.Auth {
+			pass := a.Pass
+			if a.Htpasswd {
+				pass = "htpasswd=../c03.htpasswd"
+			}
 			if len(a.Resources) == 1 && len(a.Exclude) == 0 && !a.Realm {
-				fmt.Fprintf(&sb, "\tbasicauth %s %s %s\n", a.Resources[0], a.User, a.Pass)
+				fmt.Fprintf(&sb, "\tbasicauth %s %s %s\n", a.Resources[0], a.User, pass)
 				continue
 			}
-			fmt.Fprintf(&sb, "\tbasicauth %s %s {\n", a.User, a.Pass)
+			fmt.Fprintf(&sb, "\tbasicauth %s %s {\n", a.User, pass)
 			for _, r := range a.Resources {
 				fmt.Fprintf(&sb, "\t\t%s\n", r)
 			}
@@ -134,7 +167,7 @@ func siteBlock(host string, s Site, protect bool) string {
 		}
 	}
 	for _, o := range s.Others {
-		fmt.Fprintf(&sb, "\t%s\n", strings.ReplaceAll(otherText[o], "{BACKEND}", backend.URL))
+		fmt.Fprintf(&sb, "\t%s\n", strings.ReplaceAll(strings.ReplaceAll(otherText[o], "{BACKEND}", backend.URL), "{FCGI}", fcgiAddr))
 	}
 	sb.WriteString("}\n")
 	return sb.String()
@@ -219,6 +252,9 @@ func authHeader(s Site, cred string) string {
 			return enc(s.Auth[0].User, "nope")
 		}
 		return enc("alice", "nope")
+	case "fileuser":
+		// a valid pair of the htpasswd file, but not the user any rule names
+		return enc("carol", "carol-pass")
 	case "wronguser":
 		if len(s.Auth) > 0 {
 			return enc("mallory", s.Auth[0].Pass)
@@ -294,6 +330,9 @@ func runCase(c *Case) (nontrivial int, err error) {
 		if e != nil {
 			continue // rejected outright by net/http (bad target): nothing disclosed
 		}
+		if os.Getenv("C03_DEBUG") != "" {
+			fmt.Printf("DEBUG %s %s cred=%s -> %d %q\n", r.Method, r.Target, r.Cred, resp.Status, resp.Body[:min(len(resp.Body), 700)])
+		}
 		desc := fmt.Sprintf("request %d %s %q cred=%s AE=%q on site auth=%+v internal=%v others=%v", i, r.Method, r.Target, r.Cred, r.AE, c.Site.Auth, c.Site.Internal, c.Site.Others)
 		touched := false
 		// oracle 1: no content of a resource this request may not see
@@ -306,6 +345,9 @@ func runCase(c *Case) (nontrivial int, err error) {
 				if forb, why := disclosureForbidden(c.Site, r, urlPath); forb {
 					return nontrivial, fmt.Errorf("%s: response (status %d) contains content of %s, protected by %s", desc, resp.Status, urlPath, why)
 				}
+			}
+			if bytes.Contains(blob, []byte("some fastcgi content")) {
+				vt.Extra("protected", "responses_with_a_fastcgi_reply", 1)
 			}
 			for _, m := range backendRe.FindAllSubmatch(blob, -1) {
 				bp := string(m[1])
@@ -320,6 +362,9 @@ func runCase(c *Case) (nontrivial int, err error) {
 				if strings.HasPrefix(strings.ToLower(cp), sc) {
 					touched = true
 				}
+			}
+			if strings.Contains(r.Target, "fcgi") {
+				touched = true
 			}
 			if strings.Contains(r.Target, "alias") || strings.HasPrefix(u.Path, "/r/") || u.Query().Get("archive") != "" || strings.HasPrefix(u.Path, "/try") {
 				touched = true
@@ -391,6 +436,7 @@ var protTargets = []string{
 	"/?archive=zip", "/?archive=tar", "/?archive=tar.gz", "/secret/?archive=zip", "/secret/deep/?archive=tar", "/noindex/?archive=zip", "/internal/?archive=tar", "/secret/pub/?archive=zip",
 	"/secret/api/x", "/secret/api/", "/internal/api/y", "/papi/z", "/papi/secret/s1.txt", "/secret/s1.txt.gz", "/public/p1.txt", "/", "/index.html", "/public/readme.md", "/public/tpl.html",
 	"/noindex/priv/n1.txt", "/noindex/priv/", "/noindex/priv/more/n2.txt", "/noindex/PRIV/n1.txt", "/noindex//priv/n1.txt", "/noindex/./priv/n1.txt", "/noindex/priv/?archive=zip", "/noindex/?archive=tar", "/noindex/?archive=tar.gz", "/noindex/", "/noindex/inner/../priv/n1.txt",
+	"/secret/fcgi/x", "/secret/fcgi/x.php", "/SECRET/fcgi/x", "/pfcgi/../secret/fcgi/y", "/secret/fcgi/", "/falias", "/internal/fcgi/z", "/pfcgi/q", "/pfcgi/secret/s1.txt", "//secret/fcgi/x", "/secret/./fcgi/x",
 	"/secret/s1.txt?x=1", "/secret/s1.txt/", "/secret/deep", "/secret/deep/", "/secret\\s1.txt", "/secret/s1.txt%00", "/secret;/s1.txt", "/.//secret/s1.txt",
 }
 
@@ -410,9 +456,11 @@ func genSite(t *rapid.T) Site {
 			a.Exclude = []string{rapid.SampledFrom([]string{"/secret/pub", "/secret/pub/", "/SECRET/pub"}).Draw(t, "exclp")}
 		}
 		a.Realm = rapid.IntRange(0, 3).Draw(t, "realm") == 0
+		a.Htpasswd = rapid.IntRange(0, 2).Draw(t, "htpasswd") == 0
 		s.Auth = append(s.Auth, a)
 		if rapid.IntRange(0, 3).Draw(t, "tworules") == 0 {
 			b := AuthRule{User: "bob", Pass: "builder", Resources: []string{rapid.SampledFrom([]string{"/secret/deep", "/internal", "/secret/pub", "/secret/api"}).Draw(t, "res2")}}
+			b.Htpasswd = rapid.IntRange(0, 2).Draw(t, "htpasswd2") == 0
 			if rapid.IntRange(0, 2).Draw(t, "excl2") == 0 {
 				b.Exclude = []string{rapid.SampledFrom([]string{"/secret/deep/open", "/internal/sub"}).Draw(t, "excl2p")}
 			}
@@ -469,6 +517,19 @@ func hasOther(s Site, name string) bool {
 	return false
 }
 
+var fcgiTargets = []string{"/secret/fcgi/x", "/secret/fcgi/x.php", "/SECRET/fcgi/x", "/pfcgi/../secret/fcgi/y", "/secret/fcgi/", "/falias", "/internal/fcgi/z", "/pfcgi/q", "//secret/fcgi/x", "/secret/./fcgi/x", "/pfcgi/..%2fsecret/fcgi/y", "/INTERNAL/fcgi/z"}
+
+// genTarget draws from the general list, and more often from the targets that
+// reach a FastCGI rule when the site has one.
+func genTarget(t *rapid.T, s Site, lb string) string {
+	for _, o := range s.Others {
+		if strings.Contains(o, "fcgi") && rapid.IntRange(0, 3).Draw(t, lb+"f") == 0 {
+			return rapid.SampledFrom(fcgiTargets).Draw(t, lb+"ft")
+		}
+	}
+	return rapid.SampledFrom(protTargets).Draw(t, lb+"t")
+}
+
 func TestProtected(t *testing.T) {
 	if vt.ReplayPath() != "" {
 		t.Skip("replay mode")
@@ -479,9 +540,9 @@ func TestProtected(t *testing.T) {
 		for i := 0; i < n; i++ {
 			lb := fmt.Sprintf("r%d", i)
 			r := Req{Method: rapid.SampledFrom([]string{"GET", "GET", "GET", "HEAD", "POST", "PUT", "DELETE", "PROPFIND", "OPTIONS"}).Draw(t, lb+"m"),
-				Target: rapid.SampledFrom(protTargets).Draw(t, lb+"t"),
+				Target: genTarget(t, c.Site, lb),
 				AE:     rapid.SampledFrom([]string{"-", "gzip", "gzip, br", "zstd, gzip"}).Draw(t, lb+"ae"),
-				Cred:   rapid.SampledFrom([]string{"none", "none", "none", "wrongpw", "wronguser", "malformed", "rule0", "rule1"}).Draw(t, lb+"c")}
+				Cred:   rapid.SampledFrom([]string{"none", "none", "none", "wrongpw", "wronguser", "fileuser", "malformed", "rule0", "rule1"}).Draw(t, lb+"c")}
 			if vt.Open("archive-bypasses-protection") && hasOther(c.Site, "browse-arch") && strings.Contains(r.Target, "archive=") {
 				// exclude by construction exactly the listed finding: an archive of a
 				// directory that is a strict ancestor of a protected scope
